@@ -42,6 +42,8 @@
 package main
 
 import (
+	"os"
+	"strconv"
 	"time"
 
 	"verif/internal/bisweep"
@@ -70,12 +72,24 @@ func main() {
 
 	d := bisweep.NewDriver(syncer.VerifNewOutput)
 	defer d.Close()
+	// scratch-run knobs (rate measurements of the clean-stop schedule); the registered commands set neither
+	nBase, nStops, directed := run.N(25, 400), run.N(400, 8000), true
+	if v, err := strconv.Atoi(os.Getenv("VERIF_C14_STOPS")); err == nil {
+		nStops = v
+	}
+	links := 24
+	if v, err := strconv.Atoi(os.Getenv("VERIF_C14_LINKS")); err == nil {
+		links = v
+	}
+	if os.Getenv("VERIF_C14_ONLY") == "stops" {
+		nBase, directed = 0, false
+	}
 	bisweep.SyntheticSubsets(run)
 	depth := 2
 	if !run.Quick() {
 		depth = 3
 	}
-	bisweep.Explore(run, bisweep.Options{Prop: "C14", NBase: run.N(25, 400), Depth: depth, DeepPct: 12, Workers: 6,
-		Driver: d, Factory: bisweep.NewStandalone, Directed: true})
+	bisweep.Explore(run, bisweep.Options{Prop: "C14", NBase: nBase, Depth: depth, DeepPct: 12, Workers: 6,
+		Driver: d, Factory: bisweep.NewStandalone, Directed: directed, NStops: nStops, StopLinks: links})
 	run.Exit()
 }
